@@ -43,10 +43,12 @@ def matcher(cfg):
     if cfg is None:
         return None
     if cfg["kind"] == "naive":
+        if cfg.get("m2o") is None:  # constructor default (documented: one-to-one)
+            return NaiveThresholdMatching(matching_metric=metric(cfg["metric"]), matching_threshold=cfg["thr"])
         return NaiveThresholdMatching(
             matching_metric=metric(cfg["metric"]),
             matching_threshold=cfg["thr"],
-            allow_many_to_one=bool(cfg.get("m2o", False)),
+            allow_many_to_one=bool(cfg["m2o"]),
         )
     return MaximizeMergeMatching(matching_metric=metric(cfg["metric"]), matching_threshold=cfg["thr"])
 
